@@ -18,6 +18,14 @@
 //       (file_cache, imports unchanged; undeclared_fixtures changed at most at key `file`; version = one bump per
 //       definition, wrap-around included)
 //   L2  lemma_C03_* / lemma_C15_* over visit_defs / visit_uses (pure)
+// v3 (C06 / C17 / C19): the file's OWN undeclared-fixture findings are in visit_stmt's contract (prelude/visit_undecl.rs):
+//       uv_rel(old findings, final findings, file, visit_undecl(stmt, file, text, li, old defs, imports[file]))
+//   i.e. undecl_view(final) == push_undecl(undecl_view(old), file, visit_undecl(..)): exactly the scanner's scan_fn (the contract
+//   PROVED in unit undeclared_scan, `//@stub`) per fixture / test function -- a fixture AFTER its own definition was recorded,
+//   a later class member against the definitions the earlier members recorded, sync and async alike -- pushed in order;
+//   visit_assignment_fixture / visit_pytestmark_assignment leave undeclared_fixtures alone (new ensures).  The two scan
+//   results are opaque spec fns (fix_scan / test_scan) with one lemma per scan site, so visit_stmt's big query never
+//   unfolds the scanner's recursive specification (8 s instead of 30 s).
 use rustpython_parser::ast::{Expr, Stmt, Keyword, Identifier, Constant, ExceptHandler, ExprCall, Alias, Arguments, ArgWithDefault};
 use rustpython_parser::text_size::TextRange;
 verus! {
@@ -52,6 +60,7 @@ use super::*;
 //@include prelude/visit_spec.rs
 //@include prelude/undecl_avail_spec.rs
 //@include prelude/undecl_spec.rs
+//@include prelude/visit_undecl.rs
 //@include prelude/visit_shims.rs
 //@include prelude/visit_l2.rs
 } // mod pre
@@ -68,6 +77,14 @@ use pre::*;
 //@include prelude/classify_spec.rs
 //@include prelude/visit_env.rs
 //@include prelude/visit_dbspecs_v2.rs
+/// the two conjuncts of rec_rel a scan site needs (the definitions map the scan reads, the imports map): a slim
+/// lemma_rec_open, so that the big query of visit_stmt does not see the other conjuncts again
+pub proof fn lemma_rec_defs_imports(o: FixtureDatabase, s: FixtureDatabase, ds: Seq<DefV>, us: Seq<UseV>, f: PV)
+    requires rec_rel(o, s, ds, us, f),
+    ensures s.defs() == push_defs(o.defs(), ds), s.imports == o.imports,
+{
+    reveal(rec_rel);
+}
 
 broadcast use {axiom_string_to_string, axiom_identifier_to_string, axiom_tsv_u32, axiom_str_blen};
 
@@ -145,6 +162,12 @@ impl FixtureDatabase {
         final(self).file_cache == old(self).file_cache,
         final(self).imports == old(self).imports,
         undecl_frame(old(self).undeclared_fixtures.m(), final(self).undeclared_fixtures.m(), pbv(file_path)),
+        // v3: the file's OWN findings list: exactly the scans this statement triggers (visit_undecl, prelude/visit_undecl.rs:
+        // the scanner's scan_fn per fixture / test function, against the definitions map at the moment of the scan and the
+        // file's module-level names), pushed onto what was there, in order -- nothing else, nothing dropped
+        // (uv_rel(m0, m1, f, xs) := undecl_view(m1) == push_undecl(undecl_view(m0), f, xs), opaque; lemma_uv_open spells it out)
+        uv_rel(old(self).undeclared_fixtures.m(), final(self).undeclared_fixtures.m(), pbv(file_path),
+            visit_undecl(*stmt, pbv(file_path), content@, line_index@, old(self).defs(), imps_of(old(self).imports.m(), pbv(file_path)))),
     decreases stmt,
 @start
     let ghost f = pbv(file_path);
@@ -152,7 +175,8 @@ impl FixtureDatabase {
     let ghost src = content@;
     let ghost mut du: Seq<DefV> = Seq::empty();
     let ghost mut uu: Seq<UseV> = Seq::empty();
-    proof { lemma_rec_refl(*old(self), f); }
+    let ghost mut xu: Seq<UndV> = Seq::empty();
+    proof { lemma_rec_refl(*old(self), f); lemma_uv_refl(old(self).undeclared_fixtures.m(), f); }
 @before visit_assignment_fixture 1
     let ghost s0 = *self;
 @after visit_assignment_fixture 1
@@ -217,6 +241,7 @@ impl FixtureDatabase {
         du =~= Seq::<DefV>::empty(),
         uu == decos_uses(cds, it1.index@ as int, 0, f, li),
         rec_rel(*old(self), *self, du, uu, f),
+        uv_rel(old(self).undeclared_fixtures.m(), self.undeclared_fixtures.m(), f, xu),
 @loopstart 1
     let ghost j = it1.index@ as int;
     let ghost uj = uu;
@@ -236,6 +261,7 @@ impl FixtureDatabase {
         du =~= Seq::<DefV>::empty(),
         uu == uj + lit_uses(ps.take(it2.index@ as int), f, li, false),
         rec_rel(*old(self), *self, du, uu, f),
+        uv_rel(old(self).undeclared_fixtures.m(), self.undeclared_fixtures.m(), f, xu),
 @before record_fixture_usage 1
     let ghost s1 = *self;
     let ghost i = it2.index@ as int;
@@ -252,7 +278,7 @@ impl FixtureDatabase {
     proof { assert(ps.take(ps.len() as int) =~= ps); }
 @before for 3
     let ghost uc = uu;
-    proof { assert(uc == decos_uses(cds, cds.len() as int, 0, f, li)); assert(uc + Seq::<UseV>::empty() =~= uc); }
+    proof { assert(uc == decos_uses(cds, cds.len() as int, 0, f, li)); assert(uc + Seq::<UseV>::empty() =~= uc); assert(xu =~= Seq::<UndV>::empty()); }
 @loopvar 3 it3
 @loop 3
     invariant f == pbv(file_path), li == line_index@, src == content@, is_line_index(ints(li)),
@@ -260,7 +286,9 @@ impl FixtureDatabase {
         body_pre(cb, cb.len() as int, li),
         du == body_defs(cb, it3.index@ as int, f, src, li),
         uu == uc + body_uses(cb, it3.index@ as int, f, src, li),
+        xu == body_undecl(cb, it3.index@ as int, f, src, li, old(self).defs(), imps_of(old(self).imports.m(), f)),
         rec_rel(*old(self), *self, du, uu, f),
+        uv_rel(old(self).undeclared_fixtures.m(), self.undeclared_fixtures.m(), f, xu),
 @loopstart 3
     let ghost k = it3.index@ as int;
     let ghost s0 = *self;
@@ -273,6 +301,12 @@ impl FixtureDatabase {
     }
 @loopend 3
     proof {
+        // v3: the recursive call's findings: cb[k] visited on the map the first k members left
+        let x2 = visit_undecl(cb[k], f, src, li, push_defs(old(self).defs(), body_defs(cb, k, f, src, li)), imps_of(old(self).imports.m(), f));
+        assert(s0.defs() == push_defs(old(self).defs(), du) && s0.imports == old(self).imports);
+        lemma_uv_trans(old(self).undeclared_fixtures.m(), s0.undeclared_fixtures.m(), self.undeclared_fixtures.m(), f, xu, x2);
+        assert(body_undecl(cb, k + 1, f, src, li, old(self).defs(), imps_of(old(self).imports.m(), f)) == xu + x2);
+        xu = xu + x2;
         let d2 = visit_defs(cb[k], f, src, li);
         let u2 = visit_uses(cb[k], f, src, li);
         lemma_rec_trans(*old(self), s0, *self, du, uu, d2, u2, f);
@@ -281,9 +315,14 @@ impl FixtureDatabase {
         uu = uu + u2;
     }
 @after for 3
-    proof { lemma_rec_open(*old(self), *self, du, uu, f); }
+    proof {
+        lemma_rec_open(*old(self), *self, du, uu, f);
+        assert(xu == visit_undecl(*stmt, f, src, li, old(self).defs(), imps_of(old(self).imports.m(), f)));
+    }
 @return 2
     lemma_rec_open(*old(self), *self, du, uu, f);
+    assert(xu =~= Seq::<UndV>::empty());
+    assert(visit_undecl(*stmt, f, src, li, old(self).defs(), imps_of(old(self).imports.m(), f)) =~= Seq::<UndV>::empty());
 @before for 4
     let ghost fv = FnV { name: func_name@, decos: decorator_list@, args: **args, range: range, body: body@, returns: *returns };
     let ghost ds = decorator_list@;
@@ -300,6 +339,7 @@ impl FixtureDatabase {
         du =~= Seq::<DefV>::empty(),
         uu == decos_uses(ds, it4.index@ as int, 0, f, li),
         rec_rel(*old(self), *self, du, uu, f),
+        uv_rel(old(self).undeclared_fixtures.m(), self.undeclared_fixtures.m(), f, xu),
 @loopstart 4
     let ghost j = it4.index@ as int;
     let ghost uj = uu;
@@ -319,6 +359,7 @@ impl FixtureDatabase {
         du =~= Seq::<DefV>::empty(),
         uu == uj + lit_uses(ps.take(it5.index@ as int), f, li, false),
         rec_rel(*old(self), *self, du, uu, f),
+        uv_rel(old(self).undeclared_fixtures.m(), self.undeclared_fixtures.m(), f, xu),
 @before record_fixture_usage 2
     let ghost s1 = *self;
     let ghost i = it5.index@ as int;
@@ -343,6 +384,7 @@ impl FixtureDatabase {
         du =~= Seq::<DefV>::empty(),
         uu == ua + decos_uses(ds, it6.index@ as int, 1, f, li),
         rec_rel(*old(self), *self, du, uu, f),
+        uv_rel(old(self).undeclared_fixtures.m(), self.undeclared_fixtures.m(), f, xu),
 @loopstart 6
     let ghost j = it6.index@ as int;
     let ghost uj = uu;
@@ -362,6 +404,7 @@ impl FixtureDatabase {
         du =~= Seq::<DefV>::empty(),
         uu == uj + lit_uses(ps.take(it7.index@ as int), f, li, false),
         rec_rel(*old(self), *self, du, uu, f),
+        uv_rel(old(self).undeclared_fixtures.m(), self.undeclared_fixtures.m(), f, xu),
 @before record_fixture_usage 3
     let ghost s1 = *self;
     let ghost i = it7.index@ as int;
@@ -467,6 +510,7 @@ impl FixtureDatabase {
         aps == all_params(**args), it9.seq() == aps.as_ref(),
         uu == ud + param_uses(aps, it9.index@ as int, true, f, li),
         rec_rel(*old(self), *self, du, uu, f),
+        uv_rel(old(self).undeclared_fixtures.m(), self.undeclared_fixtures.m(), f, xu),
 @loopstart 9
     let ghost n = it9.index@ as int;
     proof { assert(*arg == aps[n]); }
@@ -481,15 +525,25 @@ impl FixtureDatabase {
     }
 @before scan_function_body_for_undeclared_fixtures 1
     let ghost s1 = *self;
-    proof { assert(declared_params.s() == declared_fixture(fv.name, fv.args)); }
+    proof { assert(declared_params.s() == declared_fixture(fv.name, fv.args)); lemma_rec_defs_imports(*old(self), s1, du, uu, f); }
 @after scan_function_body_for_undeclared_fixtures 1
-    proof { lemma_rec_undecl(*old(self), s1, *self, du, uu, f); }
+    proof {
+        lemma_rec_undecl(*old(self), s1, *self, du, uu, f);
+        // v3: the fixture scan reads the map WITH the fixture's own definition (recorded above), and the file's imports
+        assert(du == func_defs(fv, f, src, li));
+        lemma_uv_fix_scan(old(self).undeclared_fixtures.m(), s1.undeclared_fixtures.m(), self.undeclared_fixtures.m(), f, xu, fv, src, li, old(self).defs(), imps_of(old(self).imports.m(), f),
+            body@, declared_params.s(), func_name@, function_line, s1.defs(), imps_of(s1.imports.m(), f));
+        assert(xu + fix_scan(fv, f, src, li, old(self).defs(), imps_of(old(self).imports.m(), f)) =~= fix_scan(fv, f, src, li, old(self).defs(), imps_of(old(self).imports.m(), f)));
+        xu = fix_scan(fv, f, src, li, old(self).defs(), imps_of(old(self).imports.m(), f));
+    }
 @before is_test 1
     let ghost ue = uu;
     proof {
         assert(du =~= func_defs(fv, f, src, li));
         assert(ue == ub + (if first_fix(ds, 0) is Some { param_uses(aps, aps.len() as int, true, f, li) } else { Seq::<UseV>::empty() }));
         assert(ue + Seq::<UseV>::empty() =~= ue);
+        if first_fix(ds, 0) is None { lemma_fix_scan_none(fv, f, src, li, old(self).defs(), imps_of(old(self).imports.m(), f)); }
+        assert(xu == fix_scan(fv, f, src, li, old(self).defs(), imps_of(old(self).imports.m(), f)));
     }
 @before for 10
     let ghost base2 = Set::<Seq<char>>::empty().insert("self"@).insert("request"@);
@@ -501,6 +555,7 @@ impl FixtureDatabase {
         declared_params.s() == declared_of(aps, it10.index@ as int, base2),
         uu == ue + param_uses(aps, it10.index@ as int, false, f, li),
         rec_rel(*old(self), *self, du, uu, f),
+        uv_rel(old(self).undeclared_fixtures.m(), self.undeclared_fixtures.m(), f, xu),
 @loopstart 10
     let ghost n = it10.index@ as int;
     proof { assert(*arg == aps[n]); }
@@ -515,14 +570,26 @@ impl FixtureDatabase {
     }
 @before scan_function_body_for_undeclared_fixtures 2
     let ghost s1 = *self;
-    proof { assert(declared_params.s() == declared_test(fv.args)); }
+    proof { assert(declared_params.s() == declared_test(fv.args)); lemma_rec_defs_imports(*old(self), s1, du, uu, f); }
 @after scan_function_body_for_undeclared_fixtures 2
-    proof { lemma_rec_undecl(*old(self), s1, *self, du, uu, f); }
+    proof {
+        lemma_rec_undecl(*old(self), s1, *self, du, uu, f);
+        // v3: the test scan reads the same map (a fixture-decorated test_x: its own definition is in it)
+        lemma_uv_test_scan(old(self).undeclared_fixtures.m(), s1.undeclared_fixtures.m(), self.undeclared_fixtures.m(), f, xu, fv, src, li, old(self).defs(), imps_of(old(self).imports.m(), f),
+            body@, declared_params.s(), func_name@, function_line, s1.defs(), imps_of(s1.imports.m(), f));
+        xu = xu + test_scan(fv, f, src, li, old(self).defs(), imps_of(old(self).imports.m(), f));
+    }
 @end
     proof {
         assert(du =~= visit_defs(*stmt, f, src, li));
         assert(uu == func_uses(fv, f, li));
         lemma_rec_open(*old(self), *self, du, uu, f);
+        if !is_test_name(fv.name) {
+            lemma_test_scan_none(fv, f, src, li, old(self).defs(), imps_of(old(self).imports.m(), f));
+            assert(fix_scan(fv, f, src, li, old(self).defs(), imps_of(old(self).imports.m(), f)) + Seq::<UndV>::empty() =~= fix_scan(fv, f, src, li, old(self).defs(), imps_of(old(self).imports.m(), f)));
+        }
+        assert(xu == func_undecl(fv, f, src, li, old(self).defs(), imps_of(old(self).imports.m(), f)));
+        assert(xu == visit_undecl(*stmt, f, src, li, old(self).defs(), imps_of(old(self).imports.m(), f)));
     }
 @*/
 
@@ -532,6 +599,8 @@ impl FixtureDatabase {
 @sig
     requires is_line_index(ints(line_index@)), old(self).env_ok(),
     ensures rec_rel(*old(self), *final(self), assign_defs(*assign, pbv(file_path), line_index@), Seq::empty(), pbv(file_path)),
+        // v3: no scan is run for an assignment-style fixture: the findings are the same stored object
+        final(self).undeclared_fixtures == old(self).undeclared_fixtures,
 @start
     let ghost f = pbv(file_path);
     let ghost li = line_index@;
@@ -543,6 +612,7 @@ impl FixtureDatabase {
         it.seq() == assign.targets@.as_ref(),
         du == targets_defs(assign.targets@, it.index@ as int, assign.range, f, li),
         rec_rel(*old(self), *self, du, Seq::empty(), f), old(self).env_ok(),
+        self.undeclared_fixtures == old(self).undeclared_fixtures,
 @loopstart 1
     let ghost i = it.index@ as int;
     proof { assert(*target == assign.targets@[i]); lemma_rec_open(*old(self), *self, du, Seq::empty(), f); }
@@ -607,6 +677,7 @@ impl FixtureDatabase {
 @sig
     requires is_line_index(ints(line_index@)),
     ensures rec_rel(*old(self), *final(self), Seq::empty(), pytestmark_uses(opt_deref(value), pbv(file_path), line_index@), pbv(file_path)),
+        final(self).undeclared_fixtures == old(self).undeclared_fixtures,
 @start
     let ghost f = pbv(file_path);
     let ghost li = line_index@;
@@ -621,6 +692,7 @@ impl FixtureDatabase {
         ps == lpairs_v(it.seq()),
         uu == lit_uses(ps.take(it.index@ as int), f, li, true),
         rec_rel(*old(self), *self, Seq::empty(), uu, f),
+        self.undeclared_fixtures == old(self).undeclared_fixtures,
 @before record_fixture_usage 1
     let ghost s1 = *self;
     let ghost i = it.index@ as int;
